@@ -148,10 +148,14 @@ fn check_union_result(u: &CpcUnion, model: &[u64; 16]) {
     core::mem::forget((r, m));
 }
 
-fn union_case(lg_a: u8, n_a: usize, lg_b: u8, n_b: usize, lg_u: u8) {
+/// cut: the HIP accumulators (kxp, hip_est_accum; f64) of input sketches are not read by the union and the
+/// merged result's estimator is ICON (C01, outside); removing the float updates is what makes these fit
+fn cut_update_hip(_s: &mut CpcSketch, _row_col: u32) {}
+
+fn union_case(lg_a: u8, n_a: usize, lg_b: u8, n_b: usize, lg_u: u8, both_orders: bool) {
     let mut model = [0u64; 16];
     let a = small_sketch(lg_a, n_a, &mut model);
-    let mut model_a = model;
+    let model_a = model;
     let b = small_sketch(lg_b, n_b, &mut model);
     let mut u1 = CpcUnion::new(lg_u);
     u1.update(&a);
@@ -160,22 +164,25 @@ fn union_case(lg_a: u8, n_a: usize, lg_b: u8, n_b: usize, lg_u: u8) {
     }
     u1.update(&b);
     check_union_result(&u1, &model);
-    // order independence and idempotence
-    let mut u2 = CpcUnion::new(lg_u);
-    u2.update(&b);
-    u2.update(&a);
-    u2.update(&b);
-    check_union_result(&u2, &model);
-    let _ = &mut model_a;
-    core::mem::forget((a, b, u1, u2));
+    if both_orders {
+        // order independence and idempotence
+        let mut u2 = CpcUnion::new(lg_u);
+        u2.update(&b);
+        u2.update(&a);
+        u2.update(&b);
+        check_union_result(&u2, &model);
+        core::mem::forget(u2);
+    }
+    core::mem::forget((a, b, u1));
 }
 
 macro_rules! cpc_union_case {
-    ($name:ident, $lga:expr, $na:expr, $lgb:expr, $nb:expr, $lgu:expr) => {
+    ($name:ident, $lga:expr, $na:expr, $lgb:expr, $nb:expr, $lgu:expr, $both:expr) => {
         #[kani::proof]
         #[kani::unwind(20)]
+        #[kani::stub(CpcSketch::update_hip, cut_update_hip)]
         fn $name() {
-            union_case($lga, $na, $lgb, $nb, $lgu);
+            union_case($lga, $na, $lgb, $nb, $lgu, $both);
             kani::cover!(true);
         }
     };
@@ -193,10 +200,12 @@ macro_rules! cpc_union_case {
 //@ functions: cpc::union::or_table_into_matrix
 //@ functions: cpc::union::or_window_into_matrix
 //@ unwind: 20
-//@ bounds: two input sketches built from symbolic distinct (row, col) coupons: (lg_k, count) per instance - Sparse (1 coupon) and Hybrid (2 coupons at lg_k 4) inputs, equal lg_k and lg_k 5 folded into 4, union created at lg_k 4 or 5 (reduce_k path); both input orders, one input repeated
-//@ desc: after every update the union's result sketch represents exactly the OR of the inputs' matrices folded to the smallest lg_k: coupon count = popcount, validate() holds, marked as merged, window offset matches; independent of input order and repetition
-cpc_union_case!(c06_union_sparse_sparse, 4, 1, 4, 1, 4); //@ tier: quick
-cpc_union_case!(c06_union_sparse_fold, 4, 1, 5, 1, 4);
-cpc_union_case!(c06_union_reduce_k, 5, 1, 4, 1, 5);
-cpc_union_case!(c06_union_hybrid_sparse, 4, 2, 4, 1, 4);
+//@ stubs: CpcSketch::update_hip -> no-op (cut: f64 HIP accumulators are not read by the union; the merged result is estimated by ICON)
+//@ bounds: two input sketches built from symbolic distinct (row, col) coupons: (lg_k, count) per instance - Sparse (1 coupon) and Hybrid (2 coupons at lg_k 4) inputs, equal lg_k and lg_k 5 folded into 4, union created at lg_k 4 or 5 (reduce_k path); the *_orders instances also run the opposite input order with one input repeated
+//@ desc: after every update the union's result sketch represents exactly the OR of the inputs' matrices folded to the smallest lg_k: coupon count = popcount, validate() holds, marked as merged, window offset matches; (orders) independent of input order and repetition
+cpc_union_case!(c06_union_sparse_sparse, 4, 1, 4, 1, 4, false); //@ tier: quick
+cpc_union_case!(c06_union_sparse_sparse_orders, 4, 1, 4, 1, 4, true);
+cpc_union_case!(c06_union_sparse_fold, 4, 1, 5, 1, 4, false);
+cpc_union_case!(c06_union_reduce_k, 5, 1, 4, 1, 5, false);
+cpc_union_case!(c06_union_hybrid_sparse, 4, 2, 4, 1, 4, false);
 //@ endfamily: x
